@@ -40,6 +40,10 @@ OMEN_W = {'ngram': 2, 'alphabet': ['x', 'y', 'z'], 'ip': {'x': 0, 'y': 0, 'z': 1
           'keyspace': {}}
 
 
+# the same strings on levels 8..12 (length costs 8 and 9): level numbers of one and of two digits
+OMEN_HI = dict(OMEN_X, ln=[10, 8, 9], keyspace={8: 1, 9: 3, 10: 3, 11: 2, 12: 2}, top_level=14)
+
+
 def omen(m, probs):
     d = dict(m)
     d['omen_prob'] = probs
@@ -69,6 +73,8 @@ def specs(tier):
     add([('D1', .5), ('M', .5)], omen(OMEN_W, [(1, .5), (2, .25)]), 'several final characters on one level (groups of 2 and 3)')
     add([('M', .6), ('D1', .4)], omen(OMEN_W, [(1, .25), (2, .25), (3, .125), (4, .125)]), 'two tied groups: levels 1=2 and 3=4')
     add([('D1', .5), ('M', .5)], omen(OMEN_W, [(1, .5), (2, .125), (3, .125), (4, .125)]), 'levels 2=3=4 tied in one pre-terminal')
+    # a tied group that mixes level numbers of one and of two digits (the zero-probability tail the trainer writes: 4, 5, 10, 11, ...)
+    add([('D1', .5), ('M', .5)], omen(OMEN_HI, [(8, .25), (9, .125), (10, .125), (11, .125)]), 'levels 9=10=11 tied in one pre-terminal')
     if tier == 'thorough':
         add([('M', .5), ('A1D1', .5)], omen(OMEN_Y, [(1, .25), (2, .0625)]), 'ngram2 three letters')
         add([('A1', .5), ('M', .25), ('D1D1', .25)], omen(OMEN_X, [(1, .5), (2, .25), (3, .125)]), 'three structures')
